@@ -18,13 +18,13 @@ theorem charge_length (p : List K) (dt w : K) : (charge p dt w).length = p.lengt
   simp [charge]
 
 theorem binCharge_length (g : Geom) (p : List K) (dt w : K) (h : p.length = g.ninput) :
-    (charge (binND g.s g.dims p) dt w).length = g.npix := by
-  rw [charge_length, binND_length _ _ _ h]; rfl
+    (charge (binNDs g.ss g.dims p) dt w).length = g.npix := by
+  rw [charge_length, binNDs_length _ _ g.hl _ h]; rfl
 
 theorem sumCharges_nil (g : Geom) : sumCharges g ([] : List (List K × K × K)) = vzero g.npix := rfl
 
 theorem sumCharges_snoc (g : Geom) (l : List (List K × K × K)) (x : List K × K × K) :
-    sumCharges g (l ++ [x]) = vadd (sumCharges g l) (charge (binND g.s g.dims x.1) x.2.1 x.2.2) := by
+    sumCharges g (l ++ [x]) = vadd (sumCharges g l) (charge (binNDs g.ss g.dims x.1) x.2.1 x.2.2) := by
   simp [sumCharges, List.foldl_append]
 
 /-- every pending integration has the size of the input grid -/
@@ -32,7 +32,7 @@ def Valid (g : Geom) (l : List (List K × K × K)) : Prop := ∀ x ∈ l, x.1.le
 
 theorem foldl_charges_length (g : Geom) (l : List (List K × K × K)) (a : List K)
     (ha : a.length = g.npix) (h : Valid g l) :
-    (l.foldl (fun a (x : List K × K × K) => vadd a (charge (binND g.s g.dims x.1) x.2.1 x.2.2)) a).length
+    (l.foldl (fun a (x : List K × K × K) => vadd a (charge (binNDs g.ss g.dims x.1) x.2.1 x.2.2)) a).length
       = g.npix := by
   induction l generalizing a with
   | nil => simpa using ha
